@@ -437,7 +437,7 @@ def scope_program(r):
         ("(%s | h(%s; %s))", 3), ("[.[]? | %s, %s]", 2), ("(def k: %s; k, %s)", 2), ("(def k(q): q, %s; k(%s))", 2), ("(reduce %s as $z (%s; %s) | %s)", 4), ("[(%s | tojson), (%s | tojson)]", 2),
     ]
     t, n = r.choice(templates)
-    inner = lambda: r.choice(['(def f: "inner"; f)', '(def f: "inner"; def g: f; g)', '("shadow" as $v | $v)', '(def f: "inner"; 1) ', '(def g(p): "inner-g"; g(1))', '(def f(a): "inner1"; f(0))',
+    inner = lambda: r.choice(['def f: "inner"; f', 'def f: "inner"; 1', '"shadow" as $v | $v', 'def g(p): "inner-g"; g(1)', '(def f: "inner"; f)', '(def f: "inner"; def g: f; g)', '("shadow" as $v | $v)', '(def f: "inner"; 1) ', '(def g(p): "inner-g"; g(1))', '(def f(a): "inner1"; f(0))',
                               '(def f: "inner"; . as $v | f)', '("shadow" as $v | def f: $v; f)', '(def f: def f: "inner2"; f; f)', '(label $f | "lab")', '(. as [$v] | $v)', '(def h(a; b): "inner-h"; h(1; 2))'])
     use = lambda: r.choice(["f", "f", "$v", "g(1)", "f", "[f, $v]", "(f | length)", "h(f; $v)", "0", "1", ".", ".a?", "empty", "(1, 2)", "null", '"s"', "[]"])
     holes = [use() for _ in range(n)]
@@ -475,6 +475,32 @@ def lookalike_programs():
             for b in leaves:
                 for k in tails:
                     out.append("1 as $x | " + f.replace("%a", a).replace("%b", b).replace("%k", k))
+    return out
+
+
+def scope_programs():
+    """The complete, deterministic core of scope_program: every construct x every position of ONE shadowing definition (three kinds)
+    with uses of the outer names in all sibling positions."""
+    templates = [
+        ("reduce %s as $z (%s; %s)", 3), ("foreach %s as $z (%s; %s; %s)", 4), ("foreach %s as $z (%s; %s)", 3), ("if %s then %s else %s end", 3), ("if %s then %s elif %s then %s else %s end", 5),
+        ("try %s catch %s", 2), ("(%s | %s)", 2), ("(%s, %s)", 2), ("(%s // %s)", 2), ("(%s and %s)", 2), ("(%s + %s)", 2), ("(%s == %s)", 2), ("{(%s): %s}", 2), ("{a: %s, b: %s}", 2), ("[%s, %s]", 2),
+        ("h(%s; %s)", 2), ("(%s as $w | %s)", 2), ("(label $m | %s, %s)", 2), ("(%s as [$p] ?// $p | %s)", 2), ("((%s) |= %s)", 2), ("((%s) = %s)", 2), ("((%s) += %s)", 2), ('"\\(%s) \\(%s)"', 2),
+        ("[limit(%s; %s)]", 2), ("[path(%s), %s]", 2), ("(.[%s:%s])", 2), ("(.[%s]?, %s)", 2), ("((%s)?, %s)", 2), ("[range(%s; %s)]", 2), ("first(%s, %s)", 2), ("[%s | select(%s)]", 2),
+        ("(%s | h(%s; %s))", 3), ("[.[]? | %s, %s]", 2), ("(def k: %s; k, %s)", 2), ("(def k(q): q, %s; k(%s))", 2), ("(reduce %s as $z (%s; %s) | %s)", 4), ("[(%s | tojson), (%s | tojson)]", 2),
+    ]
+    inners = ['(def f: "inner"; f)', '(def f: "inner"; 1)', '("shadow" as $v | $v)', '(def g(p): "inner-g"; g(1))', '(def f(a): "inner1"; f(0))', '(def h(a; b): "inner-h"; h(1; 2))', '(label $f | "lab")',
+              # the same WITHOUT parentheses (a parenthesised query opens a scope of its own in the compiler; a bare one relies on the construct around it)
+              'def f: "inner"; f', 'def f: "inner"; 1', '"shadow" as $v | $v', 'def g(p): "inner-g"; g(1)', 'def f: "inner"; def g(p): f; g(0)', 'label $f | "lab"']
+    out = []
+    for t, n in templates:
+        for pos in range(n):
+            for k, inner in enumerate(inners):
+                use = ["[f, $v]", "[g(1), f]", "[h(f; $v), f]"][k % 3]
+                if t.startswith(("[limit", "(.[", "[range")):
+                    use = ["(f | length)", "($v | length)", "(g(1) | length)"][k % 3]
+                holes = [use] * n
+                holes[pos] = inner
+                out.append('def f: "outer"; def g(p): ["G", p]; def h(a; b): [a, b]; "V" as $v | ' + t % tuple(holes))
     return out
 
 
